@@ -26,6 +26,9 @@ var c14Pool = []string{
 	// other pool members (table lookups that could remember their neighbour)
 	"MOV AL,[0x1234]", "MOV [0x1234],AX", "MOV EAX,[0x1234]", "MOV AX,[SI]", "MOV [BX],AX", "MOV EAX,[EBX]",
 	"MOV CL,AL", "CMP CL,5", "ADD BX,AX", "MOV ECX,EAX", "ADD AX,1000", "PUSH 1000", "IMUL CX,1000", "IMUL ECX,4608", "IMUL ECX,4",
+	// one mnemonic, operand sizes that differ in the prefix they need (a prefix
+	// decision remembered from the previous statement of the same handler)
+	"OUT 0x60,EAX", "OUT 0x61,AX", "IN EAX,0x60", "IN AX,0x61",
 	// statements the encoder rejects (diagnosed, nothing emitted): they must not take their neighbours with them
 	"OUT 0x03d4,AL", "PUSH AL", "IN BL,DX", "ADD AX,[BX+CX]",
 }
